@@ -119,7 +119,19 @@ def top_seq(b: Block) -> int:
 
 
 def parse_item_line(m: AclM, line: str) -> Rule:
-    return Reader(m.platform, m.version, strict=True).ace_or_remark(line, m.type == "standard")
+    r = Reader(m.platform, m.version, strict=True).ace_or_remark(line, m.type == "standard")
+    if r.kind == "ace":
+        for a in (r.src, r.dst):
+            if a.group:
+                a.members = ()
+                for o in m.flat():
+                    if o.kind != "ace":
+                        continue
+                    hit = [x for x in (o.src, o.dst) if x.group == a.group and x.members]
+                    if hit:
+                        a.members = tuple(hit[0].members)
+                        break
+    return r
 
 
 def apply_model(m: AclM, op: dict) -> Expect:  # noqa: C901
@@ -284,14 +296,12 @@ def apply_model(m: AclM, op: dict) -> Expect:  # noqa: C901
                     r.text = op["s"]
         return Expect(m)
     if k == "set_members":
-        if n:
-            b = m.blocks[op["i"] % n]
-            if b.rules:
-                r = b.rules[op["j"] % len(b.rules)]
-                if r.kind == "ace":
-                    a = r.src if op["side"] == "src" else r.dst
-                    if a.group:
-                        rd = Reader(m.platform, m.version, strict=False)
-                        a.members = tuple(rd._addr(ln.split(), 0)[0].cube for ln in op["lines"])
+        rd = Reader(m.platform, m.version, strict=False)
+        cubes = tuple(rd._addr(ln.split(), 0)[0].cube for ln in op["lines"])
+        for r in m.flat():
+            if r.kind == "ace":
+                for a in (r.src, r.dst):
+                    if a.group == op["name"]:
+                        a.members = cubes
         return Expect(m)
     raise KeyError(k)
